@@ -19,10 +19,10 @@ CLAIMED = {
                 "only_reachable_definitions / only_reachable_schemas, every_definitions_builds_once (termination within "
                 "the fuel on cycles, self-imports and diamonds), imports_build_first; "
                 "diamond_through_definitions_witness shows the per-Definitions memo (a shared schema document is "
-                "fetched once per build). Tied to suds by comparing the recorded fetch log of every generated "
+                "fetched once per build). Reader-cache model (entry written only after fetch and parse): failed_fetch_caches_nothing, openAll_faithful, failed_load_then_retry (after a load that fails part-way the cache holds only complete correct documents and a retry delivers exactly what a clean first load delivers). Tied to suds by comparing the recorded fetch log of every generated "
                 "partitioned WSDL with the model, and the resulting client with the single-document form; every "
                 "transport fetch is then failed (TransportError / ill-formed XML) under cachingpolicy 0 and 1 and "
-                "followed by a healthy retry and a warm load.",
+                "followed by a healthy retry and a warm load; the cache directory after each failed load is compared with the reader model.",
         "design_ref": "DESIGN.md section 6, C12",
         "note": "schema construction is exercised, not modelled; cache-file atomicity itself is C11.",
         "technique": "Lean 4 proof (DFS invariants reused from the dependency-sort model) + differential correspondence on fetch logs + fault injection at every fetch",
